@@ -2,6 +2,7 @@
 from __future__ import annotations
 
 import itertools
+import json
 import random
 
 from .. import expect as E
@@ -212,7 +213,43 @@ def check_doc(ctx, spec, out, case):
     return n
 
 
+def check_multi(ctx, rng, spec):
+    """Multi-section documents are outside the statement's quantifier (their sections carry the text components
+    section by section).  One consequence of the statement is decided for them all the same: which pages show the
+    subline, the footnote and the source is selected by the placement options - NOT by whether a title is given
+    (omitted, rtf_title=None, a title with text)."""
+    case = strip_meta(spec)
+    seen = {}
+    for label, t in (("omitted", "default"), ("None", None), ("text", {"text": "TT0"})):
+        s2 = dict(spec)
+        if t == "default":
+            s2.pop("title", None)
+        else:
+            s2["title"] = t
+        o = H.build_and_encode(s2)
+        if o.stage is not None:
+            ctx.count("multi_section_variants_not_encoded")
+            return
+        doc = R.parse(o.out)
+        ctx.count("docs_parsed")
+        per = []
+        for pg in doc.pages:
+            names = [r for r, _ in E.page_roles(pg)]
+            per.append((sum(1 for r in names if r == "subline"),
+                        sum(1 for r in names if r in ("footnote_row", "footnote_para")),
+                        sum(1 for r in names if r in ("source_row", "source_para"))))
+            ctx.count("pages_checked")
+        seen[label] = per
+    ctx.count("multi_section_title_variant_sets")
+    ctx.case(case, len(seen["text"]) >= 1 and isinstance(spec.get("subline"), dict))
+    if len({json.dumps(v) for v in seen.values()}) > 1:
+        ctx.violation(f"multi-section: (subline, footnote, source) counts per page depend on the title argument: "
+                      f"{ {k: v[:4] for k, v in seen.items()} }", case, {"per_page": seen})
+
+
 def check_spec(ctx, rng, spec, metamorphic=True):
+    if spec.get("kind") == "multi":
+        return check_multi(ctx, rng, spec)
     case = strip_meta(spec)
     o = H.build_and_encode(spec)
     if o.stage == "build":
@@ -252,6 +289,18 @@ def check_spec(ctx, rng, spec, metamorphic=True):
 def gen_random(rng):
     if rng.random() < 0.35:
         spec = G.gen_figure_spec(rng, nfig=(1, 6), rich=0.0)
+        return spec
+    if rng.random() < 0.2:
+        # multi-section documents (see check_multi: only the clause that the title's presence does not move the
+        # other text components is decided for them)
+        spec = G.gen_multi_spec(rng, nsec=(2, 3), nrows=rng.choice([(1, 4), (4, 14)]), ncols=(1, 4), attrs_p=0.0,
+                                rich=0.0, nrow=rng.randint(6, 14), grouping=False)
+        pg = spec.setdefault("page", {})
+        for k in ("page_title", "page_footnote", "page_source"):
+            if rng.random() < 0.8:
+                pg[k] = rng.choice(PLACES)
+        if rng.random() < 0.5:
+            spec["subline"] = {"text": "SL0"}
         return spec
     spec = G.gen_table_spec(rng, nrows=rng.choice([(0, 4), (8, 20), (25, 60)]), ncols=(1, 5),
                             strategy=rng.choice(["plain", "page_by", "page_by_new", "subline", "nested",
